@@ -35,7 +35,7 @@ ASSUMPTIONS = [
     'dumps with and without a loader are compared only for payloads that import nothing',
     'behind a debug link the .eh_frame stays in the stripped file (as objcopy leaves it); its tables are part of the dump',
 ]
-KINDS = {'synth': (160, 2400, 1), 'corpus': (40, 80, 1), 'compiled': (4, 12, 1), 'altlink': (60, 900, 2), 'reject': (60, 900, 4)}
+KINDS = {'synth': (160, 2400, 1), 'corpus': (40, 80, 1), 'compiled': (6, 48, 1), 'altlink': (60, 900, 2), 'reject': (60, 900, 4)}
 FLOOR = {'quick': 500, 'thorough': 8000}
 CASE_TIMEOUT = 900
 REACH = ['elftools.elf.elffile:ELFFile.get_dwarf_info', 'elftools.elf.elffile:ELFFile._decompress_dwarf_section',
@@ -477,14 +477,21 @@ def run_compiled(idx, rng, sh):
     if not oracles.have('gcc') or not oracles.have('objcopy'):
         sh.skip('gcc/objcopy missing')
         return
+    if sh.tier == 'quick':
+        idx += 4 * sh.seed              # rotate languages and optimisation levels with the seed
     ver = [2, 3, 4, 5][idx % 4]
-    opt = ['-O0', '-O1', '-O2'][(idx // 4) % 3]
-    src = [os.path.join(VERIF_DIR, 'corpus', 'src', f) for f in ('a.c', 'b.c')]
+    # C, C++ (COMDAT groups, many debug sections per object) and Fortran payloads
+    cc, files = [('gcc', ('a.c', 'b.c')), ('g++', ('c.cpp',)), ('gcc', ('a.c', 'b.c')), ('gfortran', ('d.f90',))][(idx // 4) % 4]
+    opt = ['-O0', '-O1', '-O2'][(idx // 16) % 3]
+    if not oracles.have(cc):
+        cc, files = 'gcc', ('a.c', 'b.c')
+    src = [os.path.join(VERIF_DIR, 'corpus', 'src', f) for f in files]
     with oracles.Scratch() as s:
         so = os.path.join(s.d, 't.so')
-        rc, out, err = oracles.run(['gcc', '-gdwarf-%d' % ver, opt, '-shared', '-nostdlib', '-fPIC', '-o', so] + src, timeout=120)
+        extra = ['-J', s.d] if cc == 'gfortran' else []
+        rc, out, err = oracles.run([cc, '-gdwarf-%d' % ver, opt, '-shared', '-nostdlib', '-fPIC', '-o', so] + src + extra, timeout=120)
         if rc != 0:
-            sh.skip('gcc failed')
+            sh.skip('%s failed' % cc)
             return
         with open(so, 'rb') as f:
             data = f.read()
@@ -504,7 +511,7 @@ def run_compiled(idx, rng, sh):
             cmp_dumps(ref, dump(ELFFile(io.BytesIO(d2)).get_dwarf_info()),
                       'objcopy --compress-debug-sections=%s (DWARF %d%s)' % (flag, ver, ', some sections left plain' if mixed else ''))
             n += 1
-            sh.sig(('objcopy', flag, ver, opt, mixed))
+            sh.sig(('objcopy', flag, ver, opt, mixed, cc))
         dbg = os.path.join(s.d, 't.debug')
         st = os.path.join(s.d, 't.stripped')
         ok = oracles.run(['objcopy', '--only-keep-debug', so, dbg])[0] == 0 and \
@@ -520,7 +527,7 @@ def run_compiled(idx, rng, sh):
             sh.sig(('objcopy', 'debuglink', ver, opt))
         # (1b) relocatable objects: relocations must reach compressed sections as well
         obj = os.path.join(s.d, 't.o')
-        if oracles.run(['gcc', '-gdwarf-%d' % ver, opt, '-c', '-o', obj, src[0]], timeout=120)[0] == 0:
+        if oracles.run([cc, '-gdwarf-%d' % ver, opt, '-c', '-o', obj, src[0]] + extra, timeout=120)[0] == 0:
             with open(obj, 'rb') as f:
                 od = f.read()
             oref = dump(ELFFile(io.BytesIO(od)).get_dwarf_info())
@@ -545,7 +552,7 @@ def run_compiled(idx, rng, sh):
         cmp_dumps(ref, ref2, 're-emitted plain container vs the compiler output')
     sh.held(n=n + m)
     sh.count('containers_compared', n + m)
-    sh.sample({'source': 'gcc -gdwarf-%d %s' % (ver, opt), 'containers': n + m, 'dump': ref}, kind='compiled')
+    sh.sample({'source': '%s -gdwarf-%d %s' % (cc, ver, opt), 'containers': n + m, 'dump': ref}, kind='compiled')
 
 
 def run_altlink(idx, rng, sh):
